@@ -130,7 +130,7 @@ func Break(t *rapid.T, c GraphCase, permille int, refusePct int) (GraphCase, []s
 								if tp, err := model.Resolve(u, r); err == nil && Pct(t, "aimed", 70) {
 									if tn, err := g.Get(tp); err == nil {
 										if lists := ListMembers(tn, "", 3, nil); len(lists) > 0 {
-											m["$ref"] = r + lists[Uniform(t, "list", len(lists))] + OddIndexes[Uniform(t, "idx", len(OddIndexes))]
+											m["$ref"] = r + fragmentOf(lists[Uniform(t, "list", len(lists))]+OddIndexes[Uniform(t, "idx", len(OddIndexes))], false)[1:] // (member names percent-encoded as a fragment needs)
 										}
 									}
 								}
